@@ -10,6 +10,8 @@ import (
 	"os"
 	"path/filepath"
 	"reflect"
+
+	"github.com/specterops/dawgs/util/verifhook"
 )
 
 const (
@@ -96,10 +98,12 @@ func writeDumpCheckpoint(outputDir string, value dumpCheckpoint) error {
 	if err := os.WriteFile(tempPath, payload, 0o600); err != nil {
 		return fmt.Errorf("write dump checkpoint temp file: %w", err)
 	}
+	verifhook.At("ckpt.tmp.write", tempPath)
 	if err := os.Rename(tempPath, finalPath); err != nil {
 		_ = os.Remove(tempPath)
 		return fmt.Errorf("publish dump checkpoint: %w", err)
 	}
+	verifhook.At("ckpt.rename", finalPath)
 
 	return nil
 }
@@ -351,6 +355,7 @@ func removeDumpCheckpoint(outputDir string) error {
 	if err := os.Remove(filepath.Join(outputDir, dumpCheckpointFileName)); err != nil && !os.IsNotExist(err) {
 		return fmt.Errorf("remove dump checkpoint: %w", err)
 	}
+	verifhook.At("ckpt.remove", outputDir)
 	return nil
 }
 
